@@ -146,6 +146,7 @@ type Enc struct {
 	heapRec  map[string]string // when non-nil: records the heap arrays read (opaque spec functions)
 	lazy     map[*ssa.Alloc]bool // heap-allocated local variables modelled as locals until their address escapes
 	cur      *cursor             // cursor of the instruction being encoded (for on-demand materialisation)
+	lazyRefs []Val               // pointers to not-yet-materialised locals parked in local pointer variables ("@lazy!<i>")
 }
 
 func newEnc(m *Model, fn *ssa.Function, c *Contract) *Enc {
@@ -594,6 +595,35 @@ func (e *Enc) join(fc *fctx, b *ssa.BasicBlock, in []edge) (string, *State) {
 				tmp := &cursor{guard: in[i].guard, st: in[i].st, fc: fc, block: in[i].from}
 				e.materialize(tmp, a)
 			}
+		}
+	}
+	// a local pointer variable that holds the address of a not-yet-materialised local on some incoming
+	// path: unless all paths agree, the address has to exist now
+	for a := range in[0].st.loc {
+		agree, any := true, false
+		for _, ed := range in {
+			t, ok := ed.st.loc[a]
+			if ok && strings.HasPrefix(t, "@lazy!") {
+				any = true
+			}
+			if !ok || t != in[0].st.loc[a] {
+				agree = false
+			}
+		}
+		if !any || agree {
+			continue
+		}
+		for i := range in {
+			t, ok := in[i].st.loc[a]
+			if !ok || !strings.HasPrefix(t, "@lazy!") {
+				continue
+			}
+			in[i].st = in[i].st.clone()
+			tmp := &cursor{guard: in[i].guard, st: in[i].st, fc: fc, block: in[i].from}
+			saved := e.cur
+			e.cur = tmp
+			in[i].st.loc[a] = e.asTerm(e.lazyRef(in[i].st, t))
+			e.cur = saved
 		}
 	}
 	r := e.fresh("r", "Bool")
